@@ -202,13 +202,15 @@ def run_group(g, gid):
     if kind == "gfilter":
         return gfilter(g, rest)
     th = g.tier == "thorough"
-    tmo = 400 if th else 150
+    tmo = 600 if th else 150
     units, descs = [], {}
     for k, (e, sp) in enumerate(shapes(th)):
         name = f"law_{k}"
         if "{" in e:   # dict selections hash their keys: names from a finite alphabet (symbolic index)
-            units.append((name, MATCH_IDX_T.format(name=name, expr=e, spec=sp, na=3 if th else 2, nq=3 if th else 2)))
-            descs[name] = f"path selected by {e} iff the documented meaning says so (names from a finite alphabet: 2 letters quick / 3 thorough)"
+            # (3-letter names in thorough were measured 'Not confirmed' within 400 s per condition; 2-letter names with
+            # 3-letter probed paths finish in < 200 s)
+            units.append((name, MATCH_IDX_T.format(name=name, expr=e, spec=sp, na=2, nq=3 if th else 2)))
+            descs[name] = f"path selected by {e} iff the documented meaning says so (selection names from a 2-letter alphabet, probed path from 2 letters quick / 3 thorough)"
         else:
             units.append((name, MATCH_T.format(name=name, expr=e, spec=sp)))
             descs[name] = f"path selected by {e} iff the documented meaning says so (symbolic strings)"
